@@ -61,6 +61,8 @@ pub struct Case {
     /// the first field is of a type the backend (de)serialises through helpers that name the field's key
     /// (TypeScript: `Date`, revived by key; Python: datetime validators): a second place that binds the key
     pub date_typed: bool,
+    /// Kotlin: no package configured at all (a supported setting: the backend then writes no package header; Scala refuses it)
+    pub empty_package: bool,
 }
 
 pub fn gen(ch: &mut Chooser, max_fields: usize) -> Case {
@@ -107,7 +109,8 @@ pub fn gen(ch: &mut Chooser, max_fields: usize) -> Case {
     if date_typed {
         fields[0].ty = Ty::user("DateTime");
     }
-    Case { in_variant, own_rule, enum_rule, fields, style, lang, prefixed, extra_attrs, variant_renamed, date_typed }
+    let empty_package = !prefixed && lang == Lang::Kotlin && ch.flag("no_package_configured");
+    Case { in_variant, own_rule, enum_rule, fields, style, lang, prefixed, extra_attrs, variant_renamed, date_typed, empty_package }
 }
 
 pub fn program(c: &Case) -> File {
@@ -141,6 +144,9 @@ pub fn program(c: &Case) -> File {
 
 fn cfg_of(c: &Case) -> Cfg {
     let mut cfg = cfg_base(c);
+    if c.empty_package {
+        cfg.package = String::new();
+    }
     if c.date_typed {
         cfg.type_mappings.push(("DateTime".into(), if c.lang == Lang::TypeScript { "Date" } else { "datetime" }.into()));
     }
@@ -346,7 +352,7 @@ pub fn run(args: &[String]) -> i32 {
             let rule = *ch.pick("rename_all", &[None, Some("kebab-case"), Some("camelCase"), Some("SCREAMING_SNAKE_CASE")]);
             let lang = *ch.pick("lang", &ALL_LANGS);
             let prefixed = ch.flag("cfg");
-            Case { in_variant, own_rule: rule, enum_rule: None, fields, style: AttrStyle::Separate, lang, prefixed, extra_attrs: false, variant_renamed: false, date_typed: false }
+            Case { in_variant, own_rule: rule, enum_rule: None, fields, style: AttrStyle::Separate, lang, prefixed, extra_attrs: false, variant_renamed: false, date_typed: false, empty_package: false }
         };
         let (accs, stats) = explore(
             |ch| {
